@@ -23,7 +23,7 @@ func (m *Model) tokTable() (int64, map[int64]string, bool) {
 				return true
 			}
 			for i, name := range vs.Names {
-				if name.Name != "tokens" || i >= len(vs.Values) {
+				if canonVarName("token", name.Name) != "tokens" || i >= len(vs.Values) {
 					continue
 				}
 				cl, ok := vs.Values[i].(*ast.CompositeLit)
